@@ -24,10 +24,10 @@ add("C05", False, "E1-enumerator", "exhaustive enumeration of a finite family (g
 add("C06", True, "E1-enumerator + fault enumeration", "exhaustive enumeration of graph shapes x fixed subsets (incl. isolated/all/landmark fixed) x deviation-bounded solver faults (0,1,2 injected answers) x iteration counts",
     "Fixed vertices are compared bitwise before/after optimize in every outcome (normal, singular, diverged, solver fault, exception); free vertices are compared with the reduced reference problem.",
     "solver seam = module global graphslam.graph.spsolve (fault layer switches itself off and says so if the name disappears)", "DESIGN.md 4 C06")
-add("C07", False, "E2-explorer", "explicit-state exploration of the (Gauss-Newton step, left-transform) state graph: commuting squares checked at every reachable state up to depth 5",
+add("C07", True, "E2-explorer", "explicit-state exploration of the (Gauss-Newton step, left-transform) state graph: commuting squares checked at every reachable state up to depth 5",
     "For every graph of the family and every transform of the alphabet, errors/chi2 invariance and GN-step/transform commutation are checked at each state of the 5-step trajectory.",
     "finite transform alphabet (incl. 180 deg, w<0, large translations); tolerance 1e-9 scaled", "DESIGN.md 4 C07")
-add("C08", False, "E2-explorer", "explicit-state exploration of representation transitions (all vertex/edge permutations, id relabelings, 2 pi k shifts, all quaternion sign patterns, edge splitting, information scaling) as commuting squares with the optimizer step",
+add("C08", True, "E2-explorer", "explicit-state exploration of representation transitions (all vertex/edge permutations, id relabelings, 2 pi k shifts, all quaternion sign patterns, edge splitting, information scaling) as commuting squares with the optimizer step",
     "Every representation change of the bounded family is applied at every state of a 5-step trajectory; chi2 and the GN step must commute with it.",
     "finite graph family; cross-term and block-diagonal information both used", "DESIGN.md 4 C08")
 add("C09", True, "E1-enumerator", "exhaustive enumeration of pose alphabets (pairs, triples, points, increments) vs homogeneous-matrix / Hamilton-sandwich reference; exact rational tier on Hurwitz x dyadic members",
